@@ -154,6 +154,60 @@ def gen_compute_case(rng, maxpix=48, force=None):
     return case
 
 
-def all_trees(n, next_id=0):
-    """all ordered forests with n nodes (shapes only)"""
-    raise NotImplementedError
+# ---------------------------------------------------------------------------------------------
+# exhaustive small scope (thorough tier): all value orderings on grids of <= 9 pixels, all arrays over a
+# three-letter alphabet on grids of <= 8 pixels, each under four parameter sets
+
+import math
+
+PERM_GRIDS = [[1], [2], [3], [4], [5], [6], [7], [2, 2], [2, 3], [3, 2], [2, 4], [3, 3], [2, 2, 2]]
+ALPHA_GRIDS = [[5], [6], [7], [8], [2, 3], [2, 4], [3, 3], [2, 2, 2]]
+PARAM_SETS = [(0, 0), (1, 0), (0, 2), (2, 2)]
+
+
+def _n(shape):
+    n = 1
+    for s in shape:
+        n *= s
+    return n
+
+
+def _families():
+    fams = []
+    for g in PERM_GRIDS:
+        fams.append(('perm', g, math.factorial(_n(g))))
+    for g in ALPHA_GRIDS:
+        fams.append(('alpha', g, 3 ** _n(g)))
+    return fams
+
+
+FAMILIES = _families()
+EXHAUSTIVE_TOTAL = sum(f[2] for f in FAMILIES) * len(PARAM_SETS)
+
+
+def unrank_perm(r, n):
+    items = list(range(1, n + 1))
+    out = []
+    for i in range(n, 0, -1):
+        f = math.factorial(i - 1)
+        out.append(items.pop(r // f))
+        r %= f
+    return out
+
+
+def exhaustive_compute_case(idx):
+    """idx in [0, EXHAUSTIVE_TOTAL) -> case"""
+    ps = idx % len(PARAM_SETS)
+    r = idx // len(PARAM_SETS)
+    for kind, g, cnt in FAMILIES:
+        if r < cnt:
+            n = _n(g)
+            if kind == 'perm':
+                k = unrank_perm(r, n)
+            else:
+                k = [(r // 3 ** i) % 3 for i in range(n)]
+            mind, minn = PARAM_SETS[ps]
+            return {'shape': list(g), 'fb': 0, 'k': k, 'dtype': 'float64', 'minv': [-1, 1], 'mind': mind, 'minn': minn, 'crits': [],
+                    'kind': 'exh-' + kind, 'periodic': [], 'adj': 'grid', 'layout': 'C'}
+        r -= cnt
+    raise IndexError(idx)
